@@ -20,12 +20,12 @@ QUICK = [
     ("mix", MIX, 3, 2, 0, 0, 2), ("mix-2r", MIX, 2, 2, 2, 0, 4), ("jcc3", JCC3, 3, 2, 1, 0, 12), ("jcc2", JCC2, 2, 2, 2, 0, 4),
 ]
 THOROUGH = [
-    ("ch-len4", CH, 3, 4, 2, 0, 64), ("mu-len4", MU, 3, 4, 2, 0, 64), ("sem0-len4", SEM, 3, 4, 2, 0, 64),
-    ("sem1-len4", SEM, 3, 4, 1, 1, 32), ("bc-len4", BC, 3, 4, 1, 0, 32),
-    ("sem1", SEM, 3, 3, 2, 1, 16), ("bc", BC, 3, 3, 2, 0, 16),
-    ("condAll", COND, 3, 3, 1, 0, 32), ("condAny", COND, 3, 3, 1, 1, 32), ("condAll-2acts", COND, 3, 2, 2, 0, 4), ("condAny-2acts", COND, 3, 2, 2, 1, 4),
+    ("ch-len4", CH, 3, 4, 1, 0, 48), ("mu-len4", MU, 3, 4, 1, 0, 48), ("sem0-len4", SEM, 3, 4, 1, 0, 48), ("sem1-len4", SEM, 3, 4, 1, 1, 48), ("bc-len4", BC, 3, 4, 1, 0, 48),
+    ("ch-2acts", CH, 3, 3, 2, 0, 16), ("mu-2acts", MU, 3, 3, 2, 0, 16), ("sem0-2acts", SEM, 3, 3, 2, 0, 16), ("sem1-2acts", SEM, 3, 3, 2, 1, 16), ("bc-2acts", BC, 3, 3, 2, 0, 16),
+    ("ch-len4-2acts", CH, 3, 4, 2, 0, 48, 8), ("mu-len4-2acts", MU, 3, 4, 2, 0, 48, 8), ("sem0-len4-2acts", SEM, 3, 4, 2, 0, 48, 8),
+    ("condAll", COND, 3, 3, 1, 0, 16), ("condAny", COND, 3, 3, 1, 1, 16), ("condAll-2acts", COND, 3, 2, 2, 0, 4), ("condAny-2acts", COND, 3, 2, 2, 1, 4),
     ("bcc", BCC, 3, 2, 2, 0, 16),
-    ("mix", MIX, 3, 2, 2, 0, 48), ("jcc3", JCC3, 3, 2, 2, 0, 48), ("jccf", JCCF, 3, 2, 1, 0, 48),
+    ("mix", MIX, 3, 2, 2, 0, 32), ("jcc3", JCC3, 3, 2, 2, 0, 32), ("jccf", JCCF, 3, 2, 1, 0, 48),
     ("jcc2", JCC2, 2, 3, 1, 0, 16), ("jcc2-2acts", JCC2, 2, 2, 2, 0, 4),
 ]
 ASAN_INFO = [("asan-ch", CH, 3, 2, 1, 0, 2), ("asan-mu", MU, 3, 3, 0, 0, 2), ("asan-sem", SEM, 3, 2, 1, 0, 2), ("asan-bc", BC, 3, 2, 1, 0, 2),
